@@ -26,7 +26,7 @@ from vlib import driver
 PROPS = ["MxlVerif.Props.C20"]
 EXACT = ["mean", "mean_squared", "mae", "mean_absolute_percentage"]
 GOOD = ["mean_squared", "rmse", "mae", "mean_absolute_percentage", "mean_squared_logarithmic"]
-FINDING = {"mean": "F-C20-2"}
+FINDING = {}
 ALL = ["cosine_similarity", "mae", "mean", "mean_absolute_percentage", "mean_squared", "mean_squared_logarithmic", "rmse"]
 
 
@@ -39,7 +39,7 @@ def oracle_value(name, d, p):
     """independent restatement with exact rationals; None where irrational (compared via a reference)"""
     n = len(d)
     if name == "mean":
-        return sum(a - b for a, b in zip(d, p)) / n
+        return abs(sum(a - b for a, b in zip(d, p)) / n)  # the absolute mean error
     if name == "mean_squared":
         return sum((a - b) ** 2 for a, b in zip(d, p)) / n
     if name == "mae":
@@ -171,6 +171,16 @@ def judge_loss(ctx, c, r, m_all):
                   what="losses.cosine_similarity: -1 at the data, minimal there, invariant under scaling the prediction")
         return
     tol = 0.0 if (sv is not None and exact_len) else 1e-12
+    if name == "mean":
+        # the absolute bias: 0 at the data, never negative, not lowered below the data's score by a larger prediction;
+        # it also vanishes when errors cancel, so "zero only at the data" is not among its laws
+        R = {"zero_at_data": abs(r["dd"]) <= tol, "nonneg": r["dp"] >= -tol, "scaling_up_not_rewarded": not (r["dlp"] < r["dd"] - tol)}
+        S = {"zero_at_data": True, "nonneg": True, "scaling_up_not_rewarded": True}
+        M = None
+        if m_val is not None and exact_len:
+            M = {"zero_at_data": F(mdd) == 0, "nonneg": F(m_val) >= 0, "scaling_up_not_rewarded": not (F(mdlp) < F(mdd))}
+        ctx.judge({"stream": "prop", **c}, R, S, M, what="losses.mean: absolute mean error — 0 at the data, never negative")
+        return
     R = {"zero_at_data": abs(r["dd"]) <= tol, "nonneg": r["dp"] >= -tol,
          "zero_only_at_data": (abs(r["dp"]) <= tol) == (d == p),
          "scaling_up_not_rewarded": not (r["dlp"] < r["dd"] - tol)}
@@ -553,6 +563,32 @@ def real_fit_case(c):
 BOUNDED_METHODS = {"L-BFGS-B", "Nelder-Mead", "Powell", "TNC", "SLSQP", "trust-constr", "COBYLA", "COBYQA"}
 
 
+def judge_boxes(ctx, c, rec, local):
+    """the boxes recorded at the scipy entry point, entry by entry in the order of p0: the caller's box for a name that has
+    one (S, from the request); for the others whatever the shipped default rule gives (M: `fillBoundsLocal` / `fillBounds`
+    with the generated constants) — and, for the local minimiser, never a default box that excludes the start value"""
+    fl = lambda t: None if t is None else float(t)  # noqa: E731
+    want = [[float(F(t)) for t in c["bounds"][k]] if k in (c.get("bounds") or {}) else None for k in c["p0"]]
+    Rb = [[fl(t) for t in b] for b in rec["bounds"]]
+    Mb = None
+    if ctx.driver_ok:
+        rq = {"names": list(c["p0"]), "given": [[k, v] for k, v in (c.get("bounds") or {}).items()]}
+        if local:
+            rq["values"] = [q(F(x)) for x in rec["x0"]]
+        (mb,) = driver.call_batch([{"op": "c20", "bounds": rq}])
+        Mb = [[None if t is None else float(F(t)) for t in b] for b in mb]
+    Sb = [w if w is not None else (Mb[i] if Mb is not None else Rb[i]) for i, w in enumerate(want)]
+    R = {"boxes": Rb}
+    S = {"boxes": Sb}
+    M = None if Mb is None else {"boxes": Mb}
+    if local:
+        inside = [w is not None or ((lo is None or lo <= x) and (hi is None or x <= hi)) for w, x, (lo, hi) in zip(want, rec["x0"], Rb)]
+        R["default_box_holds_the_start"], S["default_box_holds_the_start"] = all(inside), True
+        if M is not None:
+            M["default_box_holds_the_start"] = True
+    ctx.judge({"stream": "bounds", **c}, R, S, M, what="boxes passed to scipy follow the names of p0; a default box never excludes the start")
+
+
 def start_outside_bounds(c, rec) -> bool:
     """the class of F-C20-4: a bounds-respecting method whose start value lies outside the (default) box"""
     if c.get("method", "L-BFGS-B") not in BOUNDED_METHODS or not rec.get("bounds"):
@@ -638,15 +674,7 @@ def judge_fit(ctx, c, r):
     ctx.judge({"stream": "contract", **c}, contract, {k: True for k in contract}, None, finding=fid,
               what="scipy.optimize.minimize honours MinimiserContract on this run")
     # the boxes handed to scipy, entry by entry in the order of p0
-    want = [[float(F(t)) for t in c["bounds"][k]] if k in (c.get("bounds") or {}) else None for k in c["p0"]]
-    Rb = [[float(t) for t in b] for b in rec["bounds"]]
-    if ctx.driver_ok:
-        (mb,) = driver.call_batch([{"op": "c20", "bounds": {"names": list(c["p0"]), "given": [[k, v] for k, v in (c.get("bounds") or {}).items()]}}])
-        Mb = [[float(F(t)) for t in b] for b in mb]
-        Sb = [w if w is not None else m for w, m in zip(want, Mb)]  # the default box is whatever the code ships
-    else:
-        Mb, Sb = None, [w if w is not None else b for w, b in zip(want, Rb)]
-    ctx.judge({"stream": "bounds", **c}, Rb, Sb, Mb, what="boxes passed to scipy.optimize.minimize follow the names of p0")
+    judge_boxes(ctx, c, rec, local=True)
     # wrapper chain vs the Lean fitWrap/localScipyCall on the recorded result
     if ctx.driver_ok:
         (mv,) = driver.call_batch([{"op": "c20", "fit": {"p0": [[k, q(F(v))] for k, v in c["p0"].items()],
@@ -891,14 +919,7 @@ def judge_quad(ctx, c, r):
                                                  and list(c["p0"])[: len(c["bounds"])] == list(c["bounds"]) else "bounds-other-order/subset")))
     rec = r["rec"]
     if rec.get("bounds") is not None and "x0" in rec:
-        want = [[float(F(t)) for t in c["bounds"][k]] if k in (c.get("bounds") or {}) else None for k in c["p0"]]
-        Rb = [[float(t) for t in b] for b in rec["bounds"]]
-        Mb = None
-        if ctx.driver_ok:
-            (mb,) = driver.call_batch([{"op": "c20", "bounds": {"names": list(c["p0"]), "given": [[k, v] for k, v in (c.get("bounds") or {}).items()]}}])
-            Mb = [[float(F(t)) for t in b] for b in mb]
-        Sb = [w if w is not None else (Mb[i] if Mb else Rb[i]) for i, w in enumerate(want)]
-        ctx.judge({"stream": "bounds", **c}, Rb, Sb, Mb, what="boxes passed to scipy.optimize.minimize follow the names of p0")
+        judge_boxes(ctx, c, rec, local=not c.get("global"))
     if "raised" in r or isinstance(r.get("fit"), str):
         # a FitFailure value is an honest outcome; an exception out of a shipped minimiser on a well-formed request is not
         ctx.judge({"stream": "quad", **c}, {"input_untouched": r["after_equal"], "raised": r.get("raised")},
@@ -919,7 +940,7 @@ def judge_quad(ctx, c, r):
                                              for k, v in best.items() if k in (c.get("bounds") or {}))}
     S = {"loss_is_residual_at_best": True, "loss_le_residual_p0": True, "names": list(c["p0"]), "input_untouched": True,
          "best_within_requested_bounds": True}
-    ctx.judge({"stream": "quad", **c}, R, S, None, finding="F-C20-9" if glob == "basinhopping" else None,
+    ctx.judge({"stream": "quad", **c}, R, S, None,
               what="fit.* through a caller-supplied residual: honest loss, names, boxes respected")
     if ctx.driver_ok:
         (mv,) = driver.call_batch([{"op": "c20", "fit": {"p0": [[k, q(F(v))] for k, v in c["p0"].items()],
